@@ -248,6 +248,31 @@ func (c04) Build(tier string, seed uint64) []any {
 		}
 		cs = append(cs, c)
 	}
+	// (precgrid) several precincts per axis, resolution extents that are exact multiples of
+	// the precinct size (and one off), every progression order
+	nPrec := 40
+	if th {
+		nPrec = 500
+	}
+	for i := 0; i < nPrec; i++ {
+		r := gen.Sub(seed, "C04", "precgrid", i)
+		c := &j2kCase{Gen: "precgrid"}
+		randJ2KConfig(r, c)
+		c.PW, c.PH = gen.Pick(r, 32, 64), gen.Pick(r, 32, 64)
+		c.CBW, c.CBH = gen.Pick(r, 8, 16, 32), gen.Pick(r, 8, 16, 32)
+		c.Levels = r.Intn(4)
+		c.Prog = i % 5
+		c.C = gen.Pick(r, 1, 1, 3)
+		c.W = gen.Pick(r, 32, 64, 96, 128, 160, 192)<<uint(r.Intn(2)) + gen.Pick(r, 0, 0, 0, 1, -1)
+		c.H = gen.Pick(r, 32, 64, 96, 128, 160)<<uint(r.Intn(2)) + gen.Pick(r, 0, 0, 0, 1, -1)
+		if c.W > 260 {
+			c.W = 257 - r.Intn(2)
+		}
+		if c.H > 260 {
+			c.H = 257 - r.Intn(2)
+		}
+		cs = append(cs, c)
+	}
 	for i := 0; i < nContent; i++ {
 		r := gen.Sub(seed, "C04", "content", i)
 		c := &j2kCase{Gen: "content"}
